@@ -1137,7 +1137,7 @@ class MwB(MwBase):
     tagname = 'B'
 
 
-PATHS = {'A': ['/', '/plain', '/hdr', '/enc', '/json', '/hook', '/err', '/ns', '/exp', '/multi', '/deco'],
+PATHS = {'A': ['/', '/plain', '/hdr', '/enc', '/json', '/hook', '/err', '/ns', '/exp', '/multi', '/deco', '/deco2'],
          'B': ['/', '/x', '/err', '/stamp']}
 SCRIPT = {'A': '', 'B': '/b'}
 APP_OWNER = {'A': 100, 'B': 101}
@@ -1162,6 +1162,9 @@ def build_app(which):
     if which == 'A':
         ns = {n.strip('/') or 'index': mk(n.strip('/') or 'index') for n in PATHS['A']}
         deco = ns['deco']
+        # the SAME handler object (with its own _cp_config) is also reachable at /deco2; only /deco has an application
+        # section: what a request to /deco merges must not stick to the object and show up under /deco2 later
+        ns['deco2'] = deco
         deco._cp_config = {'tools.response_headers.on': True,
                            'tools.response_headers.headers': [('X-Deco', 'yes')],
                            'hooks.on_end_resource': conf_hook_b}
@@ -1170,6 +1173,7 @@ def build_app(which):
             '/': {'response.headers.X-Site': 'A', 'request.show_tracebacks': False,
                   'wsgi.pipeline': [('mwA', MwA)], 'wsgi.mwA.tag': 'a'},
             '/hdr': {'tools.response_headers.on': True, 'tools.response_headers.headers': [('X-Extra', '1')]},
+            '/deco': {'response.headers.X-Deco-Section': 'only-under-/deco'},
             '/enc': {'tools.encode.on': True, 'tools.encode.encoding': 'utf-8'},
             '/json': {'tools.json_in.on': True, 'tools.json_in.force': False},
             '/hook': {'hooks.before_finalize': conf_hook_a, 'hooks.on_end_request.1': conf_hook_b,
